@@ -187,6 +187,21 @@ fn check_one<CS: BbsCiphersuite>(rep: &Report, ck: &str, c: &Case) -> CheckResul
         };
         cx.expect_reject("blind_sign", "refused-commitment-presented-again", again, || "".into())?;
     }
+    // the point at infinity as commitment, with the honest scalars and with made-up ones, for several M
+    for mm in [0usize, 1, m, m + 1] {
+        let mut b = vec![0u8; 48];
+        b[0] = 0xc0;
+        for _ in 0..mm + 2 {
+            b.extend_from_slice(&refimpl::scalar_bytes(&scalar_from_seed(&mut st)));
+        }
+        cx.expect_reject("blind_sign", "identity-commitment-with-made-up-proof", || signs(&b), || format!("{} response scalars", mm))?;
+    }
+    {
+        let mut b = cb.clone();
+        b[..48].iter_mut().for_each(|x| *x = 0);
+        b[0] = 0xc0;
+        cx.expect_reject("blind_sign", "identity-commitment-with-honest-proof-scalars", || signs(&b), || "".into())?;
+    }
     // whole-scalar truncations / extensions at every position (the empty string means "no commitment")
     let chunks = (cb.len() - 48) / 32;
     let chunk_positions: Vec<usize> = if c.light && chunks > 6 { vec![0, 1, chunks / 2, chunks - 2, chunks - 1] } else { (0..chunks).collect() };
